@@ -22,10 +22,12 @@
 package main
 
 import (
+	"bytes"
 	"context"
 	"encoding/json"
 	"fmt"
 	"os"
+	"os/exec"
 	"path/filepath"
 	"strconv"
 	"strings"
@@ -43,13 +45,14 @@ const (
 	streamOut  = 0
 	streamErr  = 1
 	streamBoth = 2
+	streamConc = 3 // both streams at the same time, from two background writers, one short line per write
 
 	pipeCap  = 65536 // capacity of the capture pipe of `output:` (Linux default)
 	watchdog = 60 * time.Second
 	nChunks  = 4
 )
 
-var streamName = []string{"stdout", "stderr", "both"}
+var streamName = []string{"stdout", "stderr", "both", "both-concurrent"}
 
 // member is one configuration of the family (also the replay artefact).
 type member struct {
@@ -59,8 +62,8 @@ type member struct {
 	Script     bool `json:"script"`
 	Retries    int  `json:"retries"`    // retry limit; the first Retries attempts fail, attempt Retries+1 is the last
 	FinalFail  bool `json:"final_fail"` // the last attempt fails as well (final state "failed") instead of succeeding
-	Stream     int  `json:"stream"`     // 0 stdout, 1 stderr, 2 both interleaved
-	Size       int  `json:"size"`       // bytes per active stream and attempt
+	Stream     int  `json:"stream"`     // 0 stdout, 1 stderr, 2 both interleaved, 3 both concurrent
+	Size       int  `json:"size"`       // bytes per active stream and attempt; stream 3: lines per stream and attempt
 }
 
 func (m member) String() string {
@@ -68,16 +71,23 @@ func (m member) String() string {
 		m.StdoutFile, m.StderrFile, m.Output, m.Script, m.Retries, m.FinalFail, streamName[m.Stream], m.Size)
 }
 
+// outBytes / errBytes: pattern bytes the last attempt writes per stream (newlines of the concurrent writers not counted).
 func (m member) outBytes() int {
-	if m.Stream == streamErr {
+	switch m.Stream {
+	case streamErr:
 		return 0
+	case streamConc:
+		return (m.Size + concPrologue) * (concWidth(m.Size) + 1)
 	}
 	return m.Size
 }
 
 func (m member) errBytes() int {
-	if m.Stream == streamOut {
+	switch m.Stream {
+	case streamOut:
 		return 0
+	case streamConc:
+		return (m.Size + concPrologue) * (concWidth(m.Size) + 1)
 	}
 	return m.Size
 }
@@ -92,12 +102,25 @@ func (m member) captured() int {
 	if !m.StderrFile {
 		n += m.errBytes()
 	}
+	if m.Stream == streamConc {
+		n += n / (concWidth(m.Size) + 1) // newlines
+	}
 	return n
 }
 
-// excluded: the capture pipe is read only after the child exited; more than one
-// pipe capacity deadlocks.  That defect belongs to C11 (C11/output/hang(size>64KiB)).
+// excluded: captured volumes above one pipe capacity belong to C11
+// (C11/output/hang(size>64KiB)); besides, Node.Execute exports the value into the
+// environment of this process, and values above MAX_ARG_STRLEN would make execve
+// fail for the members that run in parallel.
 func (m member) excluded() bool { return m.captured() > pipeCap }
+
+// want: the bytes attempt a writes to the stream (n = outBytes/errBytes).
+func (m member) want(attempt, stream, n int) []byte {
+	if m.Stream == streamConc {
+		return concPattern(attempt, stream, m.Size)
+	}
+	return pattern(attempt, stream, n)
+}
 
 func (m member) wiring() string {
 	switch {
@@ -123,6 +146,9 @@ func (m member) class() string {
 	c := m.retriesClass() + "/" + m.wiring()
 	if m.FinalFail {
 		c += "/final-failed"
+	}
+	if m.Stream == streamConc {
+		c += "/concurrent"
 	}
 	return c
 }
@@ -192,9 +218,24 @@ type outcome struct {
 	checkErr string
 	sample   map[string]any
 	earlier  bool // the stdout file also held the earlier attempts' bytes
+	rounds   int  // executions of the member (concurrent members are repeated)
 }
 
-func emitScript(dir string, failFirst int) string {
+func emitScript(dir string, failFirst int, concurrent bool) string {
+	if concurrent {
+		// two writers side by side (p<attempt>.sh), one write(2) of one short line each time round the loop
+		var sb strings.Builder
+		fmt.Fprintf(&sb, "d=%s\n", dir)
+		sb.WriteString("n=0; if [ -f $d/cnt ]; then read n < $d/cnt; fi\n") // builtins only: the first line goes out at once
+		sb.WriteString("n=$((n+1))\n")
+		sb.WriteString("echo $n > $d/cnt\n")
+		sb.WriteString("echo $$ > $d/pid\n")
+		sb.WriteString(". $d/p$n.sh\n")
+		sb.WriteString("wait\n")
+		fmt.Fprintf(&sb, "if [ $n -le %d ]; then exit 1; fi\n", failFirst)
+		sb.WriteString("exit 0\n")
+		return sb.String()
+	}
 	var sb strings.Builder
 	fmt.Fprintf(&sb, "d=%s\n", dir)
 	sb.WriteString("echo $$ > $d/pid\n")
@@ -208,6 +249,110 @@ func emitScript(dir string, failFirst int) string {
 	fmt.Fprintf(&sb, "if [ $n -le %d ]; then exit 1; fi\n", failFirst)
 	sb.WriteString("exit 0\n")
 	return sb.String()
+}
+
+// concWidth: digits per line of the concurrent writers; lines = f * 10^(width-1), f <= 10.
+func concWidth(lines int) int {
+	w := 1
+	for p := 10; p < lines; p *= 10 {
+		w++
+	}
+	return w
+}
+
+// concPattern: what one concurrent writer prints, without the newlines: for
+// every line number its decimal digits (fixed width) over the private alphabet
+// of (attempt, stream), followed by the alphabet's separator.
+func concPattern(attempt, stream, lines int) []byte {
+	a := alphabet(attempt, stream)
+	w := concWidth(lines)
+	out := make([]byte, 0, (lines+concPrologue)*(w+1))
+	for i := 0; i < concPrologue; i++ {
+		out = append(out, concPrologueLine(a, w)...)
+	}
+	for i := 0; i < lines; i++ {
+		d := fmt.Sprintf("%0*d", w, i)
+		for k := 0; k < len(d); k++ {
+			out = append(out, a[d[k]-'0'])
+		}
+		out = append(out, a[10])
+	}
+	return out
+}
+
+// The writers start with concPrologue slow lines: stdout prints one at once and
+// one 0.2 s later, stderr stays silent for 0.3 s and prints its prologue then;
+// after that both run flat out.  (A reader that parked on the silent stream
+// while the other stream's first line sat in a shared buffer is the situation
+// in which unsynchronised sharing loses bytes.)
+const concPrologue = 2
+
+func concPrologueLine(a []byte, w int) []byte {
+	l := bytes.Repeat([]byte{a[9]}, w)
+	return append(l, a[10])
+}
+
+func shQuoteStr(b []byte) string {
+	var sb strings.Builder
+	for _, c := range b {
+		sb.WriteString(shQuote(c))
+	}
+	return sb.String()
+}
+
+func shQuote(c byte) string {
+	if c == '\'' {
+		return `"'"`
+	}
+	return "'" + string(c) + "'"
+}
+
+// concLoops: nested `for` loops over the alphabet's digits that echo the lines
+// of concPattern, one echo (one write) per line — no arithmetic, no reads.
+func concLoops(attempt, stream, lines int) string {
+	a := alphabet(attempt, stream)
+	w := concWidth(lines)
+	pow := 1
+	for i := 1; i < w; i++ {
+		pow *= 10
+	}
+	f := lines / pow
+	if f*pow != lines || f > 10 {
+		panic(fmt.Sprintf("concurrent line count %d is not f*10^k", lines))
+	}
+	list := func(n int) string {
+		var q []string
+		for i := 0; i < n; i++ {
+			q = append(q, shQuote(a[i]))
+		}
+		return strings.Join(q, " ")
+	}
+	var sb strings.Builder
+	fmt.Fprintf(&sb, "s=%s\n", shQuote(a[10]))
+	vars := ""
+	for k := 0; k < w; k++ {
+		n := 10
+		if k == 0 {
+			n = f
+		}
+		fmt.Fprintf(&sb, "for d%d in %s; do ", k, list(n))
+		vars += fmt.Sprintf("$d%d", k)
+	}
+	fmt.Fprintf(&sb, "printf '%%s\\n' \"%s$s\"; ", vars) // printf, not echo: the alphabets contain a backslash
+	for k := 0; k < w; k++ {
+		sb.WriteString("done; ")
+	}
+	return sb.String()
+}
+
+// writeConc: p<attempt>.sh starts the two writers side by side and waits for both.
+func writeConc(dir string, attempt, lines int) error {
+	w := concWidth(lines)
+	po := shQuoteStr(concPrologueLine(alphabet(attempt, 0), w))
+	pe := shQuoteStr(concPrologueLine(alphabet(attempt, 1), w))
+	sh := fmt.Sprintf("( printf '%%s\\n' %s; sleep 0.2; printf '%%s\\n' %s; sleep 0.2; %s ) &\n( sleep 0.3; printf '%%s\\n' %s; printf '%%s\\n' %s; %s ) >&2 &\nwait\n",
+		po, po, concLoops(attempt, 0, lines), pe, pe, concLoops(attempt, 1, lines))
+	return os.WriteFile(filepath.Join(dir, fmt.Sprintf("p%d.sh", attempt)), []byte(sh), 0o644)
 }
 
 func writeChunks(dir string, attempt, stream int, tag string, n int) error {
@@ -238,6 +383,13 @@ func runMember(m member, dir string, idx int) (oc outcome) {
 	}
 	defer os.RemoveAll(dir)
 	for a := 1; a <= m.Retries+1; a++ {
+		if m.Stream == streamConc {
+			if err := writeConc(dir, a, m.Size); err != nil {
+				oc.checkErr = err.Error()
+				return
+			}
+			continue
+		}
 		if err := writeChunks(dir, a, 0, "o", m.outBytes()); err != nil {
 			oc.checkErr = err.Error()
 			return
@@ -251,7 +403,7 @@ func runMember(m member, dir string, idx int) (oc outcome) {
 	if m.FinalFail {
 		failFirst = m.Retries + 1
 	}
-	script := emitScript(dir, failFirst)
+	script := emitScript(dir, failFirst, m.Stream == streamConc)
 	// the step, as internal/dag/builder.go leaves it for `command: sh <file>` resp. `command: sh` + `script:`
 	step := dag.Step{Name: "emit", Dir: dir, Variables: []string{}, Depends: nil,
 		ExecutorConfig: dag.ExecutorConfig{Config: map[string]any{}}, Preconditions: []dag.Condition{}}
@@ -358,7 +510,7 @@ func runMember(m member, dir string, idx int) (oc outcome) {
 		if n == 0 {
 			return
 		}
-		want := pattern(last, stream, n)
+		want := m.want(last, stream, n)
 		b, why := read(path)
 		got := project(b, alphabet(last, stream))
 		ok, at := containsInOrder(got, want)
@@ -390,7 +542,7 @@ func runMember(m member, dir string, idx int) (oc outcome) {
 		check("stdout-file", step.Stdout, streamOut, m.outBytes())
 		if last > 1 && m.outBytes() > 0 {
 			b, _ := read(step.Stdout)
-			ok, _ := containsInOrder(project(b, alphabet(1, streamOut)), pattern(1, streamOut, m.outBytes()))
+			ok, _ := containsInOrder(project(b, alphabet(1, streamOut)), m.want(1, streamOut, m.outBytes()))
 			oc.earlier = ok
 		}
 	}
@@ -448,6 +600,142 @@ func enumerate(thorough bool) (all []member, excluded int) {
 			}
 		}
 	}
+	// both streams at the same time: the whole configuration product again
+	// (quick: command only, retries 0/1, last attempt succeeds)
+	for _, so := range b {
+		for _, se := range b {
+			for _, ov := range b {
+				for _, scr := range b {
+					for r := 0; r <= 2; r++ {
+						for _, ff := range b {
+							if !thorough && (scr || r == 2 || ff) {
+								continue
+							}
+							for _, n := range concLines(thorough, ov) {
+								m := member{StdoutFile: so, StderrFile: se, Output: ov, Script: scr, Retries: r, FinalFail: ff, Stream: streamConc, Size: n}
+								if m.excluded() {
+									excluded++
+									continue
+								}
+								all = append(all, m)
+							}
+						}
+					}
+				}
+			}
+		}
+	}
+	return
+}
+
+// concLines: lines per stream of the concurrent writers. With `output:` the
+// captured volume (both streams, 6 bytes a line) stays below 64 KiB.
+func concLines(thorough, output bool) []int {
+	switch {
+	case output:
+		return []int{4000}
+	case thorough:
+		return []int{2000, 20000, 30000}
+	}
+	return []int{20000}
+}
+
+func rounds(thorough bool) int {
+	if thorough {
+		return 5
+	}
+	return 3
+}
+
+var spinSink int
+
+// childOut is what an isolated execution of one member reports back.
+type childOut struct {
+	Attempts int              `json:"attempts"`
+	Viol     []vlib.Violation `json:"viol"`
+	CheckErr string           `json:"check_err"`
+	Sample   map[string]any   `json:"sample"`
+}
+
+// runIsolated executes a concurrent member R times, each time in a process of
+// its own: the data race the mode is after lives in goroutines of os/exec, a
+// panic there (bufio index out of range) cannot be recovered in this process.
+func runIsolated(m member, dir string, idx, R int) (oc outcome) {
+	oc.m = m
+	for r := 0; r < R; r++ {
+		oc.rounds++
+		wdir := fmt.Sprintf("%s-r%d", dir, r)
+		mf, of := wdir+".member.json", wdir+".out.json"
+		b, _ := json.Marshal(map[string]any{"replay": m})
+		if err := os.WriteFile(mf, b, 0o644); err != nil {
+			oc.checkErr = err.Error()
+			return
+		}
+		cmd := exec.Command(os.Args[0], "-replay", mf, "-work", wdir, "-out", os.DevNull)
+		cmd.Env = append(os.Environ(), "VERIF_C12_CHILD="+of, fmt.Sprintf("VERIF_C12_IDX=%d", idx))
+		// rounds alternate between runtime settings of the process that runs the step:
+		// 1 processor + one busy goroutine, 2 processors + two busy goroutines, all processors idle
+		switch r % 3 {
+		case 0:
+			cmd.Env = append(cmd.Env, "GOMAXPROCS=1", "VERIF_C12_SPIN=1")
+		case 1:
+			cmd.Env = append(cmd.Env, "GOMAXPROCS=2", "VERIF_C12_SPIN=2")
+		}
+		cmd.SysProcAttr = &syscall.SysProcAttr{Setpgid: true}
+		var buf bytes.Buffer
+		cmd.Stdout, cmd.Stderr = &buf, &buf
+		err := cmd.Start()
+		if err != nil {
+			oc.checkErr = err.Error()
+			return
+		}
+		done := make(chan error, 1)
+		go func() { done <- cmd.Wait() }()
+		hung := false
+		select {
+		case err = <-done:
+		case <-time.After(watchdog + 30*time.Second):
+			hung = true
+			_ = syscall.Kill(-cmd.Process.Pid, syscall.SIGKILL)
+			<-done
+		}
+		var co childOut
+		ob, rerr := os.ReadFile(of)
+		if rerr == nil {
+			rerr = json.Unmarshal(ob, &co)
+		}
+		killChild(wdir)
+		_ = os.RemoveAll(wdir)
+		_ = os.Remove(mf)
+		_ = os.Remove(of)
+		switch {
+		case hung:
+			oc.viol = append(oc.viol, vlib.Violation{Signature: "C12/hang/" + m.class(),
+				Detail: fmt.Sprintf("%s: round %d: the isolated execution did not end", m, r), Replay: m})
+			return
+		case err != nil || rerr != nil:
+			out := buf.String()
+			if len(out) > 1200 {
+				out = out[:1200]
+			}
+			oc.viol = append(oc.viol, vlib.Violation{Signature: "C12/crash/" + m.class(),
+				Detail: fmt.Sprintf("%s: round %d: the process running the step died (%v): %s", m, r, err, out), Replay: m})
+			return
+		}
+		oc.attempts, oc.sample = co.Attempts, co.Sample
+		if co.CheckErr != "" {
+			oc.checkErr = co.CheckErr
+			return
+		}
+		if len(co.Viol) > 0 {
+			for _, v := range co.Viol {
+				v.Detail = fmt.Sprintf("round %d of %d: %s", r+1, R, v.Detail)
+				v.Replay = m
+				oc.viol = append(oc.viol, v)
+			}
+			return
+		}
+	}
 	return
 }
 
@@ -471,6 +759,28 @@ func main() {
 			os.Exit(2)
 		}
 		mine, idxs = []member{rp.Replay}, []int{0}
+		if of := os.Getenv("VERIF_C12_CHILD"); of != "" {
+			// isolated single execution on behalf of runIsolated
+			idx, _ := strconv.Atoi(os.Getenv("VERIF_C12_IDX"))
+			if n, _ := strconv.Atoi(os.Getenv("VERIF_C12_SPIN")); n > 0 {
+				for i := 0; i < n; i++ {
+					go func() {
+						for x := 0; ; x++ {
+							spinSink = x
+						}
+					}()
+				}
+			}
+			oc := runMember(rp.Replay, fl.Work, idx)
+			b, _ := json.Marshal(childOut{Attempts: oc.attempts, Viol: oc.viol, CheckErr: oc.checkErr, Sample: oc.sample})
+			if err := os.WriteFile(of, b, 0o644); err != nil {
+				fmt.Fprintln(os.Stderr, err)
+				os.Exit(2)
+			}
+			os.Unsetenv("C12_OUT")
+			os.RemoveAll(fl.Work)
+			return
+		}
 	} else {
 		all, excluded := enumerate(fl.Thorough())
 		for i, m := range all {
@@ -481,6 +791,8 @@ func main() {
 		}
 		res.Bounds["sizes"] = sizes(fl.Thorough())
 		res.Bounds["retries_le"] = 2
+		res.Bounds["concurrent_lines_per_stream"] = map[string]any{"without_output": concLines(fl.Thorough(), false), "with_output": concLines(fl.Thorough(), true)}
+		res.Bounds["concurrent_rounds_per_member"] = rounds(fl.Thorough())
 		res.Bounds["family_members"] = len(all)
 		res.Bounds["excluded_output_capture_gt_64KiB_cited_to_C11"] = excluded
 	}
@@ -497,7 +809,17 @@ func main() {
 		go func() {
 			defer wg.Done()
 			for k := range next {
-				outs[k] = runMember(mine[k], filepath.Join(fl.Work, fmt.Sprintf("m%05d", idxs[k])), idxs[k])
+				dir := filepath.Join(fl.Work, fmt.Sprintf("m%05d", idxs[k]))
+				if mine[k].Stream == streamConc {
+					R := rounds(fl.Thorough())
+					if fl.Replay != "" {
+						R = 5
+					}
+					outs[k] = runIsolated(mine[k], dir, idxs[k], R)
+				} else {
+					outs[k] = runMember(mine[k], dir, idxs[k])
+					outs[k].rounds = 1
+				}
 			}
 		}()
 	}
@@ -513,7 +835,11 @@ func main() {
 			res.CheckError("%s", oc.checkErr)
 			continue
 		}
-		res.Evaluations++
+		res.Evaluations += int64(oc.rounds)
+		if oc.m.Stream == streamConc {
+			res.Count("concurrent_members", 1)
+			res.Count("concurrent_executions", int64(oc.rounds))
+		}
 		if !oc.m.trivial() {
 			res.Nontrivial(vlib.Hash(oc.m.String()))
 		}
@@ -552,8 +878,9 @@ func main() {
 		}
 	}
 	res.Rule = "every member of the product is built as a dag.Step and run by the real scheduler.Schedule with a real sh child; distinct = distinct configuration; non-trivial = anything but {no redirect, no output variable, command, no retry}"
-	res.Assume("the step's child writes with cat(1) from prepared pattern files in 4 chunks per stream, alternating stdout/stderr chunks when both streams are used")
-	res.Assume("configurations whose captured `output:` volume exceeds one pipe capacity (64 KiB) are excluded: they deadlock (C11/output/hang(size>64KiB))")
+	res.Assume("the step's child writes with cat(1) from prepared pattern files in 4 chunks per stream, alternating stdout/stderr chunks when both streams are used; in the both-concurrent mode two background sh loops print one 6-7-byte line per write(2), one loop per stream, at the same time")
+	res.Assume(fmt.Sprintf("OS-level interleaving inside os/exec (its copy goroutines) is not controlled; every both-concurrent member is repeated %d times, each time in a process of its own, and fails on the first lossy repetition", rounds(fl.Thorough())))
+	res.Assume("configurations whose captured `output:` volume exceeds one pipe capacity (64 KiB) are excluded: that volume is C11's (C11/output/hang(size>64KiB)), and the value is exported into this process's environment")
 	res.Assume("Schedule is given a drained done channel, as the agent does")
 	res.Write(fl.Out)
 	os.Unsetenv("C12_OUT")
